@@ -3,7 +3,7 @@ import re
 
 from ..extract import AnalysisError
 from ..facts import walk, strip, callee, calls_to
-from ..symx import Poly, Unsupported, app, var, num, single_atom, atom_fn, atom_args, contains_atom, cmp_atom
+from ..symx import guard_holds, Poly, Unsupported, app, var, num, single_atom, atom_fn, atom_args, contains_atom, cmp_atom
 from ..trace import Tracer
 from ..panics import Audit, SM, unwrap_mut
 
@@ -157,7 +157,7 @@ def run(ck, F, tier):
         lp = e.loops[0] if e.loops else None
         col_is_loop = lp is not None and lp[0] == "range" and colv == var(lp[1]) and lp[2] == num(0) and lp[3] == news[0].args[1] and not lp[4]
         tokv = rowv + num(1)
-        minus1 = single_atom(tokv) is not None and any(g == cmp_atom("ne", tokv, num(0)) and p for g, p in e.guards)
+        minus1 = single_atom(tokv) is not None and guard_holds(e.guards, cmp_atom("ne", tokv, num(0)))
         ins_ok = col_is_loop and minus1 and order_ok
         why = ("reader: for col in 0..ncols, every non-zero token t of the line inserts (t - 1, col) [loop over columns: %s, "
                "`t != 0` guard and minus one: %s]; writer: column lists first, tokens = index + 1, 0 = padding" % (col_is_loop, minus1))
